@@ -33,7 +33,7 @@ CLAIMED = {
         text="Theorems (Properties/C05): for EVERY cut offset n of the WAL file, the version history of the cut-off log (when accepted) is an initial segment, in commit order, of the history of the whole log, with equal Version records and equal version interfaces as functions (truncated_history_prefix / _pointwise / _take / _eq_restricted); a cut inside the 32-byte header is refused; every version k>=1 of an accepted cut-off history is the commit record of the k-th transaction of the whole log, closed by its commit frame, all of whose frames lie wholly below the cut (versions_committed); cuts right after a commit frame are accepted (non-vacuity). Frame-level half in Properties/C02. Tied by vh.dump correspondence over truncation offsets, per-commit snapshots and SQLite's recovery of the same pair.",
         design="§9 C02/C05", note=NOTE + "truncation only (torn writes inside a frame are outside the quantifier); frame checksums are not verified by the tool nor the model: 'equals what SQLite recovers' is decided by the recovery oracle in the correspondence stage, not by a theorem.", technique=T),
     "C03": dict(
-        text="Theorems on the dictionary algebra of VersionParserIterator.next (Properties/C03: replay of one commit report reproduces the new table state for every rowid, every new cell reported exactly once, added/updated disjoint, deleted = vanished cells, unchanged dictionary reports nothing) and on the decision to skip re-reading a b-tree (Properties/C03Skip): the parse of a b-tree depends only on the pages it visited (frame lemma), and when no page of the previous parse is among the commit's updated b-tree pages and the root did not move, a re-read whose pages avoid the new version's schema/freelist/pointer-map pages returns the SAME tree, so the skipped commit rightly reports nothing (skip_sound; skip_sound_wal with every interface hypothesis discharged for commit records of the WAL model). Tied by vh.iter correspondence and replay against SQLite's per-commit snapshots.",
+        text="Theorems on the dictionary algebra of VersionParserIterator.next (Properties/C03: replay of one commit report reproduces the new table state for every rowid, every new cell reported exactly once, added/updated disjoint, deleted = vanished cells, unchanged dictionary reports nothing) and on the decision to skip re-reading a b-tree (Properties/C03Skip): the parse of a b-tree depends only on the pages it visited (frame lemma), and when no page of the previous parse is among the commit's updated b-tree pages and the root did not move, a re-read whose pages avoid the new version's schema/freelist/pointer-map pages returns the SAME tree, so the skipped commit rightly reports nothing (skip_sound; skip_sound_wal with every interface hypothesis discharged for commit records of the WAL model). Composed over the whole iteration (Properties/C03Replay): every reported commit is the diff of the true cell dictionaries of two consecutive versions (also for skipped commits), and replaying the reports of the first j+1 commits from the empty table gives, for every rowid, the stored bytes of that row in version j (history_replay; exact cells under digest-determines-cell); a row whose stored bytes did not change is in none of the three lists. Tied by vh.iter correspondence and replay against SQLite's per-commit snapshots.",
         design="§9 C03", note=NOTE + "md5 modelled as identity on the hashed bytes (collision-freeness assumed); skip_sound assumes the new version's census is disjoint (C06) and that the forced re-read would succeed.", technique=T),
     "C10": dict(
         text="Kernel-checked theorems over the model of Signature.__init__ and generate_signature_regex: every examined row's serial "
